@@ -29,6 +29,11 @@ func runC05(p *core.Program, r *core.Report) {
 	c05R2(p, r, pl)
 	c05R3(p, r, pl)
 	c05R4(p, r)
+	// R5: the loaded universe is shared by every package of a run: a method that writes it while generators run
+	// makes what one package reads depend on which packages were processed before
+	r.Floor("R5", 1)
+	universeWriteScan(p, r, "R5", nil)
+	c05R6(p, r, pl)
 }
 
 // genLoop finds the loop over the variadic generators parameter in the per-package function.
@@ -704,4 +709,103 @@ func fieldVarOf(info *types.Info, id *ast.Ident) *types.Var {
 		return v
 	}
 	return nil
+}
+
+// c05R6: every map the per-package function stores into is allocated by this very call: a local (or the field of a
+// context built here) all of whose values are fresh `make`/literal maps. A map that came from outside - the global tag
+// table, a field of the run's context - and is written per package carries one package's entries into the next.
+func c05R6(p *core.Program, r *core.Report, pl *pipeline) {
+	const rule = "R6"
+	r.Floor(rule, 1)
+	f := pl.pkgExec
+	info := f.Info()
+	var fresh func(e ast.Expr, depth int) (bool, string)
+	fresh = func(e ast.Expr, depth int) (bool, string) {
+		e = ast.Unparen(e)
+		if depth > 6 {
+			return false, "origin too deep to follow"
+		}
+		switch x := e.(type) {
+		case *ast.CompositeLit:
+			return true, ""
+		case *ast.CallExpr:
+			if core.CalleeName(info, x) == "builtin.make" {
+				return true, ""
+			}
+			return false, "`" + core.ExprStr(x) + "` is not an allocation"
+		case *ast.Ident:
+			v := core.VarOf(info, x)
+			if v == nil || v.IsField() || !core.DeclaredIn(info, f.Body, v) {
+				return false, "`" + x.Name + "` is not a variable of this call"
+			}
+			defs := core.DefsOf(info, f.Body, v)
+			if len(defs) == 0 {
+				return false, "`" + x.Name + "` has no definition here"
+			}
+			for _, d := range defs {
+				if d.Rhs == nil || d.Index >= 0 {
+					if d.Kind == "var" && d.Rhs == nil {
+						continue // declared nil, assigned later
+					}
+					return false, "`" + x.Name + "` is defined by " + d.Kind
+				}
+				if ok, why := fresh(d.Rhs, depth+1); !ok {
+					return false, "`" + x.Name + "` can be `" + core.ExprStr(d.Rhs) + "`: " + why
+				}
+			}
+			return true, ""
+		case *ast.SelectorExpr:
+			// field of a context built in this function
+			fld := core.FieldOf(info, x)
+			base := core.VarOf(info, x.X)
+			if fld == nil || base == nil || !core.DeclaredIn(info, f.Body, base) {
+				return false, "`" + core.ExprStr(x) + "` is reached through something that was not built by this call"
+			}
+			d, ok := core.SingleDef(info, f.Body, base)
+			if !ok {
+				return false, "`" + base.Name() + "` is assigned more than once"
+			}
+			inits, ok := structInits(info, f.Body, d.Rhs)
+			if !ok {
+				return false, "`" + base.Name() + "` is not built from a struct literal here"
+			}
+			v, has := inits[fld]
+			if !has {
+				return false, "field " + fld.Name() + " is not initialised where `" + base.Name() + "` is built"
+			}
+			return fresh(v, depth+1)
+		}
+		return false, "`" + core.ExprStr(e) + "` is not an allocation"
+	}
+	n := 0
+	check := func(container ast.Expr, at ast.Node) {
+		if !isMapType(info.TypeOf(container)) {
+			return
+		}
+		n++
+		ok, why := fresh(container, 0)
+		r.Check(ok, rule, f, "a map written per package is allocated by the per-package call: "+core.ExprStr(container), at.Pos(), "every value the container can have is a make/literal of this call",
+			"the per-package function stores into a map that is not its own ("+why+"): entries written for one package are still there when the next package is processed, so what a package's generators see depends on what was generated before")
+	}
+	ast.Inspect(f.Body, func(m ast.Node) bool {
+		switch x := m.(type) {
+		case *ast.AssignStmt:
+			for _, l := range x.Lhs {
+				if ix, ok := ast.Unparen(l).(*ast.IndexExpr); ok {
+					check(ix.X, x)
+				}
+			}
+		case *ast.CallExpr:
+			switch core.CalleeName(info, x) {
+			case "builtin.delete", "builtin.clear", "maps.Copy", "maps.Insert":
+				if len(x.Args) >= 1 {
+					check(x.Args[0], x)
+				}
+			}
+		}
+		return true
+	})
+	if n == 0 {
+		r.OK(rule, f, "the per-package function stores into no map", f.Node().Pos(), "nothing to carry over")
+	}
 }
